@@ -257,6 +257,31 @@ static void build(const vf::Case& c, Built& b)
 			p.hnames.push_back(refhttp::recase(h.name, h.lookup_seed));
 		for (auto& kv : q.query)
 			p.qkeys.push_back(kv.first);
+		// names that were not sent: one that sorts before every likely key, one that sorts late
+		auto absent_key = [&](std::string k, char pad) {
+			for (bool dup = true; dup;) {
+				dup = false;
+				for (auto& kv : q.query)
+					if (kv.first == k)
+						dup = true;
+				if (dup)
+					k += pad;
+			}
+			return k;
+		};
+		p.qabsent.push_back(absent_key("\x01", '\x01'));
+		if (q.enc_seed % 2)
+			p.qabsent.push_back(absent_key("zz-not-there", 'z'));
+		std::string hn = "x-not-there";
+		for (bool dup = true; dup;) {
+			dup = false;
+			for (auto& h : q.headers)
+				if (refhttp::lower(h.name) == hn)
+					dup = true;
+			if (dup)
+				hn += "e";
+		}
+		p.habsent.push_back(hn);
 		b.o.plans.push_back(p);
 	}
 }
@@ -281,12 +306,21 @@ static void match(const c09::Seen& s, const refhttp::Request& q, size_t idx, boo
 			VF_CHECK(i < s.qlook.size() && s.qlook[i] == q.query[i].second, w, "query(", vf::show(q.query[i].first), ") = ",
 			         vf::show(i < s.qlook.size() ? s.qlook[i] : "?"), " sent ", vf::show(q.query[i].second), " in ", vf::show(refhttp::target_of(q)));
 			auto it = s.query.find(q.query[i].first);
-			VF_CHECK(it != s.query.end() && it->second == q.query[i].second, w, "query() dictionary entry ", vf::show(q.query[i].first));
+			VF_CHECK(it != s.query.end() && it->second == q.query[i].second, w, "query() dictionary entry ", vf::show(q.query[i].first), " (enumerated after the lookups)");
+			VF_CHECK(i < s.qlook_after.size() && s.qlook_after[i] == q.query[i].second, w, "the reference returned by query(", vf::show(q.query[i].first), ") reads ",
+			         vf::show(i < s.qlook_after.size() ? s.qlook_after[i] : "?"), " after ", s.qabsent.size(), " lookup(s) of absent parameters, sent ", vf::show(q.query[i].second),
+			         " (", q.query.size(), " parameters)");
 		}
 	}
+	for (auto& v : s.qabsent)
+		VF_CHECK(v.empty(), w, "query(k) for a parameter that was not sent returned ", vf::show(v));
+	for (auto& v : s.habsent)
+		VF_CHECK(v.empty(), w, "header(name) for a header that was not sent returned ", vf::show(v));
+	VF_CHECK(s.query_before == s.query, w, "query() enumerates ", s.query.size(), " parameters after the lookups, ", s.query_before.size(), " before them, sent ", q.query.size());
 	for (size_t i = 0; i < q.headers.size(); i++) {
 		const refhttp::Header& h = q.headers[i];
 		std::string got = i < s.hlook.size() ? s.hlook[i] : "?";
+		VF_CHECK(i < s.hlook_after.size() && s.hlook_after[i] == got, w, "header(", vf::show(h.name), ") changed after the lookup of an absent header");
 		if (h.folds.empty())
 			VF_CHECK(got == h.value, w, "header(", vf::show(refhttp::recase(h.name, h.lookup_seed)), ") = ", vf::show(got), " sent ", vf::show(h.value),
 			         " (optional whitespace before value: ", vf::show(refhttp::ows_b(h.ows_before)), ")");
@@ -672,6 +706,11 @@ static vf::Case make_fidelity(uint64_t seed, int nreq, int maxh, int maxq, int b
 		unsigned enc = r.below(3);
 		c.ops.push_back(vf::Op("req", {r.below(10) == 0 && !pipelined, enc == 1 ? 0 : (long long)(r.next() >> 33), fm < 9 ? 0 : fm - 8}, {methods[r.below(14)], path, fm >= 9 ? "frag" + r_str(r, 1, 3) : std::string()}));
 		unsigned nq = r.below((unsigned)maxq + 1);
+		if (maxq > 0 && r.below(4) == 0) { // exactly at / around the growth steps of the parameter dictionary's array
+			// (the long ones mostly in the fragments part: there no cut sweep multiplies the longer head)
+			static const unsigned steps[] = {3, 6, 3, 6, 2, 5, 3, 6, 12, 3, 6, 12, 24, 11, 13, 12};
+			nq = steps[pipelined ? 6 + r.below(10) : r.below(9)];
+		}
 		for (unsigned k = 0; k < nq; k++)
 			c.ops.push_back(vf::Op("q", {}, {r_str(r, 1, 5) + (char)('a' + r.below(26)), r_str(r, 1, 10)}));
 		unsigned nh = r.below((unsigned)maxh + 1);
@@ -767,6 +806,9 @@ static void classify_fragments(const vf::Case& c)
 		st.nt(vf::fnv(vf::serialize(c)));
 	st.cls("fragments.bursts_per_stream=" + std::to_string(at.size() + 1));
 	st.cls("fragments.requests_per_stream=" + std::to_string(b.reqs.size()));
+	for (auto& q : b.reqs)
+		if (q.query.size() == 3 || q.query.size() == 6 || q.query.size() == 12 || q.query.size() == 24)
+			st.cls("fragments.query_params=" + std::to_string(q.query.size()));
 	bool tail = false;
 	for (size_t i = 0; i < at.size(); i++) {
 		size_t x = at[i], next = i + 1 < at.size() ? at[i + 1] : b.stream.size();
@@ -810,6 +852,8 @@ static void classify_fidelity(const vf::Case& c)
 			st.cls("fidelity.body.empty_framed");
 		if (!q.query.empty())
 			st.cls("fidelity.with_query");
+		if (q.query.size() == 3 || q.query.size() == 6 || q.query.size() == 12 || q.query.size() == 24)
+			st.cls("fidelity.query_params=" + std::to_string(q.query.size()));
 		if (q.fragmode)
 			st.cls(q.fragmode == 1 ? "fidelity.fragment_after_query" : "fidelity.fragment_before_query");
 		if (refhttp::target_of(q).find('%') != std::string::npos)
